@@ -195,3 +195,166 @@ def lexer_standin(contracts, tier, jobs=16):
             for k, v in ev.items():
                 evals[k] = evals.get(k, 0) + v
     return total, accepted, fails, evals
+
+
+# -------------------------------------------------------------------------------------------
+# whole pipeline: parse / parse_value / parse_type verdict == Earley verdict over the spec grammar
+
+FLAG_COMBOS = [(ats, efv, nl) for ats in (True, False) for efv in (False, True) for nl in (False, True)]
+
+
+def _entry_call(entry):
+    from py_gql.lang import parser as P
+    return {"document": P.parse, "value": P.parse_value, "type": P.parse_type}[entry]
+
+
+def judge_text(entry, text, ats, efv, nl, as_bytes=False):
+    """run the real parser; returns (accepted, failure-or-None, exc)"""
+    from py_gql.exc import GraphQLSyntaxError
+    src = text.encode("utf8") if as_bytes else text
+    try:
+        node = _entry_call(entry)(src, allow_type_system=ats, experimental_fragment_variables=efv, no_location=nl)
+        return True, None, node
+    except GraphQLSyntaxError as e:
+        fail = None
+        if not (isinstance(e.position, int) and 0 <= e.position <= len(text)):
+            fail = ("parse:position-in-text", {"text": text, "exc": type(e).__name__, "exc_position": e.position, "len": len(text)},
+                    "syntax error position %r outside the submitted text of length %d" % (e.position, len(text)))
+        else:
+            try:
+                msg = str(e)
+                d = e.to_dict()
+                if not isinstance(msg, str) or not isinstance(d, dict):
+                    fail = ("parse:renderable", {"text": text}, "str()/to_dict() returned %r / %r" % (type(msg), type(d)))
+            except Exception as e2:
+                fail = ("parse:renderable", {"text": text, "exc": type(e).__name__, "exc_position": e.position, "len": len(text),
+                                             "render_error": type(e2).__name__},
+                        "rendering the syntax error raised %r" % (e2,))
+        return False, fail, e
+    except RecursionError:
+        raise
+    except Exception as e:
+        return None, ("parse:only-syntax-errors", {"text": text, "exc": type(e).__name__, "flags": [ats, efv, nl]},
+                      "parser raised %r instead of a syntax error" % (e,)), e
+
+
+def _pipeline_chunk(args):
+    items, tier = args
+    from spec import grammar as G
+    n = acc = 0
+    fails = []
+    for entry, text in items:
+        for ats, efv, nl in FLAG_COMBOS:
+            if entry != "document" and (not ats or efv):
+                continue       # the flags only affect documents
+            n += 1
+            expected = G.accepts(text, entry, allow_type_system=ats, fragment_variables=efv)
+            got, fail, obj = judge_text(entry, text, ats, efv, nl)
+            if fail:
+                fails.append(fail)
+            if got is not None and got != expected:
+                fails.append(("parse:accepts-exactly-the-grammar",
+                              {"text": text, "entry": entry, "flags": {"allow_type_system": ats, "experimental_fragment_variables": efv},
+                               "grammar": expected, "parser": got},
+                              "parser %s a text the grammar %s" % ("accepts" if got else "rejects", "derives" if expected else "does not derive")))
+            acc += bool(got)
+        # bytes input must behave exactly like str input
+        a1, _f, o1 = judge_text(entry, text, True, False, True)
+        a2, f2, o2 = judge_text(entry, text, True, False, True, as_bytes=True)
+        n += 1
+        if a1 != a2 or (a1 and o1 != o2) or (a1 is False and (type(o1) is not type(o2) or o1.position != o2.position)):
+            fails.append(("parse:bytes-equals-str", {"text": text, "entry": entry}, "UTF-8 bytes input behaves differently from str input"))
+        if f2:
+            fails.append(f2)
+    return n, acc, fails
+
+
+def pipeline_corpus(tier, seed):
+    import random
+    from . import gen_docs as GD
+    rnd = random.Random(seed)
+    out, seen = [], set()
+
+    def add(entry, text):
+        if (entry, text) not in seen:
+            seen.add((entry, text))
+            out.append((entry, text))
+    fillers = GD.FILLERS if tier == "thorough" else GD.FILLERS[:4]
+    for efv in (False, True):
+        for entry, toks in GD.corpus(tier, seed, efv):
+            add(entry, GD.render(toks))
+            add(entry, GD.render(toks, tight=True))
+            add(entry, GD.render(toks, fillers[rnd.randrange(len(fillers))]))
+            add(entry, "﻿" + GD.render(toks, " ,") + " # end")
+            eds = list(GD.edits(toks, rnd, GD.EDIT_POOL))
+            if tier != "thorough" and len(eds) > 24:
+                eds = rnd.sample(eds, 24)
+            for ed in eds:
+                add(entry, GD.render(ed))
+    # short raw strings: every string over the alphabets (lexical/syntactic boundary cases)
+    for s in strings(ALPHABET, 2):
+        for entry in ("document", "value", "type"):
+            add(entry, s)
+    for s in strings(SMALL_ALPHABET, 3 if tier != "thorough" else 4):
+        add("value", s)
+        add("document", s)
+    return out
+
+
+def pipeline_check(tier, seed, jobs=16):
+    items = pipeline_corpus(tier, seed)
+    size = max(1, len(items) // (jobs * 6))
+    chunks = [(items[i:i + size], tier) for i in range(0, len(items), size)]
+    total = accepted = 0
+    fails = []
+    ctx = mp.get_context("fork")
+    with ctx.Pool(jobs) as pool:
+        for n, acc, f in pool.imap_unordered(_pipeline_chunk, chunks):
+            total += n
+            accepted += acc
+            fails += f
+    return len(items), total, accepted, fails
+
+
+def recursion_probe():
+    """single named case of the property: nesting deeper than the interpreter's recursion budget"""
+    from py_gql.lang import parser as P
+    from py_gql.exc import GraphQLSyntaxError
+    out = {}
+    for name, text, entry in (("list-value", "[" * 5000 + "]" * 5000, "value"), ("selection-set", "{a" * 5000 + "}" * 5000, "document"),
+                              ("list-type", "[" * 5000 + "T" + "]" * 5000, "type")):
+        try:
+            _entry_call(entry)(text)
+            out[name] = "accepted"
+        except GraphQLSyntaxError:
+            out[name] = "GraphQLSyntaxError"
+        except RecursionError:
+            out[name] = "RecursionError"
+        except Exception as e:
+            out[name] = type(e).__name__
+    return out
+
+
+def render_check(tier):
+    """GraphQLSyntaxError(message, position, text) renders for every position inside the text:
+    all texts over a line-structure alphabet x every position 0..len (exhaustive to the bound)."""
+    from py_gql.exc import GraphQLSyntaxError, UnexpectedEOF
+    from py_gql._string_utils import index_to_loc
+    alpha = ["a", "\n", "\r", "\u2028", " "]
+    n = 0
+    fails = []
+    for text in strings(alpha, 6 if tier == "thorough" else 5):
+        for pos in range(len(text) + 1):
+            n += 1
+            try:
+                e = GraphQLSyntaxError("m", pos, text)
+                msg, d = str(e), e.to_dict()
+                line, col = index_to_loc(text, pos)
+                ok = isinstance(msg, str) and isinstance(d.get("message"), str) and line >= 1 and col >= 1 \
+                    and line == 1 + text[:pos].count("\n") and col == pos - (text.rfind("\n", 0, pos) + 1) + 1
+                if not ok:
+                    fails.append(("GraphQLSyntaxError:renderable", {"text": text, "position": pos}, "rendering gives %r / %r / %r" % (msg, d, (line, col))))
+            except Exception as ex:
+                fails.append(("GraphQLSyntaxError:renderable", {"text": text, "position": pos, "render_error": type(ex).__name__},
+                              "rendering a syntax error at position %d of %r raised %r" % (pos, text, ex)))
+    return n, fails
